@@ -266,6 +266,20 @@ def s_shared_upvalue(rng, i):
                 val=f"sa{i}({fnum(rng)})", tag="shared-upvalue")
 
 
+def s_box_destructure(rng, i):
+    """an aggregate (tuple / record) that is the sole owner of a `type rec` value, bound by its own `let`, then taken apart by a
+    destructuring `let` whose right-hand side is the bare variable; steady on the unchanged VM in exactly this shape (one cell whose
+    tail is a let-bound value; nested inline constructors leak by the recorded finding F23).  Response to seeded change C12c."""
+    defs = f"type rec L{i} = Nil{i} | Cons{i}(float, L{i})\n"
+    g, x = fnum(rng), fnum(rng)
+    body = [f"let rest{i} = Nil{i}"]
+    if rng.chance(1, 2):
+        body += [f"let voice{i} = ({g}, Cons{i}({x}, rest{i}))", f"let (gn{i}, pat{i}) = voice{i}"]
+    else:
+        body += [f"let voice{i} = {{gain = {g}, pat = Cons{i}({x}, rest{i})}}", f"let {{gain = gn{i}, pat = pat{i}}} = voice{i}"]
+    return Snip(defs=defs, body=body, val=f"gn{i}", tag="box-destructure")
+
+
 def s_sibling_capture(rng, i):
     """k sibling closures made in one call capture the same long-lived closure (a global, reached through a local alias or a
     parameter); every sibling is a plain `let`-bound local that dies with the call, or one of them escapes and is called later.
@@ -357,9 +371,9 @@ SNIPPETS = [s_local_closure, s_local_closure, s_local_counter, s_escape, s_escap
             s_hof_lambda, s_hof_named, s_hof_var, s_compose, s_twice, s_pipe, s_tuple_closure, s_record_closure,
             s_global_closure, s_global_counter, s_global_replicate, s_global_stateful, s_box_list, s_box_list,
             s_box_tree, s_box_option, s_sched_self, s_sched_lambda_dsp, s_sched_metro, s_sched_counter, s_plain,
-            s_shared_upvalue, s_sibling_capture, s_sibling_capture, s_forward, s_forward, s_forward, s_forward, s_forward, s_forward, s_let_result]
+            s_shared_upvalue, s_sibling_capture, s_sibling_capture, s_box_destructure, s_box_destructure, s_forward, s_forward, s_forward, s_forward, s_forward, s_forward, s_let_result]
 # snippets that only use objects made during global initialisation: the property must hold with no exception
-STEADY_TAGS = {"global-closure", "box-global", "box-none", "plain", "sched-metro", "sched-letrec", "box-local-single"}
+STEADY_TAGS = {"global-closure", "box-global", "box-none", "plain", "sched-metro", "sched-letrec", "box-local-single", "box-destructure"}
 
 
 def gen_program(rng, only_steady=False):
@@ -865,6 +879,11 @@ def check_programs(ck, exe, drv, evdir, progs, N, EVN, CLS_N, have_h2, known):
             ck.add("steady_only_programs")
             if not (a == b == c):
                 ck.add("steady_only_programs_growing")
+                # these snippets are steady on a correct VM with NO exception: growth is a violation whatever class the leaked
+                # objects would fall into (the class predicates of F22..F24 are too wide to tell a new leak from a recorded one)
+                ck.violation("a program made only of constructs that are steady on the unchanged tree accumulates closures / heap objects: "
+                             "(closures, heap) after N/2, N, 2N = %s" % ((a, b, c),), rep)
+                continue
         for tg in set(p.get("tags", [])):
             ck.add("tag_" + tg + ("_steady" if a == b == c else "_growing"))
         if a == b == c:
